@@ -7,8 +7,8 @@
   (driver/translate/c10_depth.py, `extract_roll_state`) reads into `Gen.C10.roll_tables`
 
     * the private attributes `__init__` creates (`self._x = None`),
-    * the ones `reevaluate_cache` empties, and whether that happens after or before the hook values are re-evaluated
-      (`super().reevaluate_cache()`),
+    * the ones `reevaluate_cache` empties BEFORE the hook values are re-evaluated (`super().reevaluate_cache()`) and the ones
+      it empties AFTER that (the same attribute may be in both lists: `self._x = None; super()...; self._x = None`),
     * for every method / property of the class whether it touches private attributes at all (`pure`) or remembers its
       result in one (`memo`: `if self._f: return self._f` / `self._f = <value>` / `return self._f`), and which part of the
       roll's data that value is computed from (`Dep.shape`: the contour points only),
@@ -51,10 +51,12 @@ inductive MethodKind where
 structure RollTables where
   /-- private attributes created by `__init__` -/
   privateFields : List String
-  /-- private attributes emptied by `reevaluate_cache` -/
-  resets : List String
-  /-- `super().reevaluate_cache()` (the cached hook values are re-evaluated) comes BEFORE the private attributes are emptied -/
-  resetAfterHooks : Bool
+  /-- private attributes `reevaluate_cache` empties BEFORE `super().reevaluate_cache()` (= before the cached hook values are
+      re-evaluated; the hook functions then see no remembered value) -/
+  resetsBefore : List String
+  /-- private attributes `reevaluate_cache` empties AFTER `super().reevaluate_cache()` (what the hook functions left there
+      while they were re-evaluated is dropped again) -/
+  resetsAfter : List String
   /-- private attribute ↦ what the value kept there is computed from -/
   memoFields : List (String × Dep)
   methods : List (String × MethodKind)
@@ -68,14 +70,26 @@ def lookupS {β : Type} : List (String × β) → String → Option β
 
 def RollTables.depOf (T : RollTables) (f : String) : Dep := (lookupS T.memoFields f).getD .all
 
+/-- every private attribute `reevaluate_cache` empties, before or after the hook values are re-evaluated -/
+def RollTables.resets (T : RollTables) : List String := T.resetsBefore ++ T.resetsAfter
+
 /-- the static facts the theorems need: everything the object keeps is emptied by `reevaluate_cache`; every remembering
-    method keeps its result in such an attribute; and where the attributes are emptied only AFTER the hook values were
-    re-evaluated (so that hook functions still see the old remembered values), those depend on the contour only -/
+    method keeps its result in such an attribute; and an attribute that is emptied only AFTER the hook values were
+    re-evaluated (so that hook functions still see the old remembered value) depends on the contour only -/
 def RollTables.sound (T : RollTables) : Bool :=
   T.privateFields.all (fun f => T.resets.contains f) &&
   T.methods.all (fun m => match m.2 with
     | .pure => true
-    | .memo f => T.resets.contains f && T.privateFields.contains f && (!T.resetAfterHooks || T.depOf f == .shape))
+    | .memo f => T.privateFields.contains f
+        && (T.resetsBefore.contains f || (T.resetsAfter.contains f && T.depOf f == .shape)))
+
+/-- `reevaluate_cache` empties what EVERY remembering method keeps before the hook values are re-evaluated (the repaired
+    statement order `self._x = None; super().reevaluate_cache(); …`): no hook function ever sees a value remembered for
+    older data, whatever changed -/
+def RollTables.emptiesFirst (T : RollTables) : Bool :=
+  T.methods.all (fun m => match m.2 with
+    | .pure => true
+    | .memo f => T.resetsBefore.contains f)
 
 structure RollObj where
   /-- the data the roll has now -/
@@ -129,13 +143,15 @@ def refresh (T : RollTables) (was : List (String × Ver)) : List (String × Stri
     | none => refresh T was r o
     | some _ => refresh T was r (readHook T o hm.1 hm.2).1
 
-def emptyResets (T : RollTables) (o : RollObj) : RollObj :=
-  { o with store := o.store.filter (fun e => !T.resets.contains e.1) }
+/-- the statements `self._x = None` for the attributes `fs` -/
+def emptyFields (fs : List String) (o : RollObj) : RollObj :=
+  { o with store := o.store.filter (fun e => !fs.contains e.1) }
 
-/-- `Roll.reevaluate_cache`, statement order as read from the source -/
+/-- `Roll.reevaluate_cache`, statement order as read from the source: the attributes emptied first, the cached hook values
+    re-evaluated (`HookHost.reevaluate_cache` empties the cache and evaluates every hook that was cached again), the
+    attributes emptied afterwards -/
 def reevaluate (T : RollTables) (o : RollObj) : RollObj :=
-  if T.resetAfterHooks then emptyResets T (refresh T o.cache T.hookReads { o with cache := [] })
-  else refresh T o.cache T.hookReads { emptyResets T o with cache := [] }
+  emptyFields T.resetsAfter (refresh T o.cache T.hookReads { emptyFields T.resetsBefore o with cache := [] })
 
 inductive RollOp where
   /-- radius / contact length / discretisation change, then `reevaluate_cache()` -/
